@@ -8,7 +8,7 @@ sys.path.insert(0, HERE)
 from vlib.main import MODULES  # noqa
 
 # properties whose check has passed the integration gate (quiet at 3 seeds, mutants caught)
-READY = ['C01', 'C02', 'C03', 'C04', 'C06', 'C11', 'C13', 'C15', 'C16', 'C19', 'C20']
+READY = ['C01', 'C02', 'C03', 'C04', 'C06', 'C09', 'C11', 'C13', 'C15', 'C16', 'C19', 'C20']
 
 CHECKS = {
     'C01': dict(cat='fault_enumeration', ref='3 C01',
